@@ -98,6 +98,27 @@ def soft_cmp(a, b) -> str:
     return "same" if core.canon(a) == core.canon(b) else "differ"
 
 
+DECODE_LIMIT = 20000    # characters; the model's line splitter is structurally recursive
+
+
+def text_lines(ctx, path, feats=None):
+    """the lines of the file as Python's text layer hands them to pewlib (codec utf-8-sig, universal newlines).  For files of
+    fewer than DECODE_LIMIT characters the Lean model of that layer (`decodeLines`: byte order mark, \\r\\n and \\r, lines with
+    their terminator) gets the characters of the file (bytes decoded as plain UTF-8) and must hand out the same lines."""
+    with path.open("r", encoding="utf-8-sig") as fp:
+        lines = list(fp)
+    raw = path.read_bytes().decode("utf-8")
+    if len(raw) < DECODE_LIMIT:
+        rep = ctx.driver.call("c03.decode", chars=raw)
+        if rep["lines"] != lines:
+            raise InternalError("the Lean model of the text layer (decodeLines) and Python's text layer disagree")
+        if feats is not None:
+            feats.add("text-layer:modelled")
+    elif feats is not None:
+        feats.add("text-layer:trusted (long file)")
+    return lines
+
+
 def canon_call(c) -> str:
     return core.canon(c)
 
@@ -249,9 +270,12 @@ class C03(Prop):
             p.write_bytes((b"\xef\xbb\xbf" if case["bom"] else b"") + body.encode("utf-8"))
             r = call(thermo.icap_csv_sample_format, p)
             impl = {"raises": type(r).__name__} if isinstance(r, Exception) else str(r)
-            rep = ctx.driver.call("c03.sniff", lines=case["lines"])
+            fs = set()
+            decoded = text_lines(ctx, p, fs)
+            # the model gets the lines as the text layer hands them to pewlib
+            rep = ctx.driver.call("c03.sniff", lines=decoded)
             nl = len(case["lines"])
-            feats = ["other-file", "short-file" if nl < 3 else "long-file", "bom" if case["bom"] else "no-bom"]
+            feats = ["other-file", "short-file" if nl < 3 else "long-file", "bom" if case["bom"] else "no-bom"] + sorted(fs)
             if case.get("shifted"):
                 feats.append("other-file:export-after-title-or-blank-lines")
             if rep["other"]:
@@ -287,10 +311,10 @@ class C03(Prop):
             raise InternalError("Python table writer and Lean renderer disagree")
         # the files as Python's text layer hands them to pewlib (codec, universal newlines) are, line by line, the text
         # the Lean model rendered (and split again for its readers)
+        tl_feats = set()
         for path, key in ((prow, "text_rows"), (pcol, "text_cols")):
-            with path.open("r", encoding="utf-8-sig") as fp:
-                if list(fp) != rep[key]:
-                    raise InternalError("the file written and the text rendered by the Lean model disagree")
+            if text_lines(ctx, path, tl_feats) != rep[key]:
+                raise InternalError("the file written and the text rendered by the Lean model disagree")
         dl = delim if case["explicit_delimiter"] else None
         impl, model, spec = {}, {}, {}
         und = False
@@ -298,7 +322,7 @@ class C03(Prop):
         feats = {f"n{n}" if n <= 2 else "n>=3", f"m{m}" if m <= 2 else "m>=3", f"k{len(a['elements'])}" if len(a["elements"]) <= 2 else "k>=3",
                  f"delim{delim}dec{case['decimal']}", "bom" if case["bom"] else "no-bom", "crlf" if case["eol"] == "\r\n" else "lf",
                  "explicit-delimiter" if dl else "auto-delimiter", "channels:" + "+".join(c[0] for c in a["channels"]), case["kind"],
-                 "model-splits-the-text" if rep["resplit"] else "model-reads-the-table"}
+                 "model-splits-the-text" if rep["resplit"] else "model-reads-the-table"} | tl_feats
         if any("#" in x for x in a["samples"]):
             feats.add("hash:sample-name")
             feats.add("hash:sample-name:" + ("first" if "#" in a["samples"][0] else "later"))
@@ -448,8 +472,8 @@ class C03(Prop):
         eol = case["eol"]
         body = eol.join(case["lines"]) + (eol if case["final_eol"] and case["lines"] else "")
         p.write_bytes((b"\xef\xbb\xbf" if case["bom"] else b"") + body.encode("utf-8"))
-        with p.open("r", encoding="utf-8-sig") as fp:   # codec and universal newlines: Python's, not pewlib's
-            lines = list(fp)
+        tl_feats = set()
+        lines = text_lines(ctx, p, tl_feats)    # codec and universal newlines: Python's (and the Lean model of them), not pewlib's
         dl = case["delimiter"] if case["explicit_delimiter"] else None
         comma = case["decimal"] == "," and case["delimiter"] != ","
         fields = ctx.driver.call("c03.fields", lines=lines, delimiter=dl)["fields"]
@@ -516,7 +540,7 @@ class C03(Prop):
                             if pd and "scantime" in pd:
                                 pd["scantime"] = "~"
         edits = case["edits"]
-        feats = {"text", f"text:{case['layout']}", "explicit-delimiter" if dl else "auto-delimiter"} | {f"text:{case['layout']}:{e}" for e in edits}
+        feats = {"text", f"text:{case['layout']}", "explicit-delimiter" if dl else "auto-delimiter"} | {f"text:{case['layout']}:{e}" for e in edits} | tl_feats
         reads = [k for k, v in impl.items() if k != "format" and soft_cmp(v, v) == "same"]
         feats.add("text:something-imports" if reads else "text:nothing-imports")
         if gen_thermo.is_strict(case):
@@ -557,8 +581,7 @@ class C03(Prop):
                 a = c["acq"]
                 gen_thermo.write(f, gen_thermo.table_rows(a) if c["kind"] == "rows" else gen_thermo.table_cols(a), c["delimiter"], c["eol"], c["bom"])
                 toks |= {t for ps in a["tokens"] for pe in ps for pc in pe for t in pc}
-            with f.open("r", encoding="utf-8-sig") as fp:   # codec and universal newlines: Python's, not pewlib's
-                decoded.append(list(fp))
+            decoded.append(text_lines(ctx, f))
             if c["kind"] == "other":
                 jcont.append({"kind": "other", "lines": decoded[-1]})
             else:
